@@ -52,7 +52,7 @@ func handleSynPos(raw json.RawMessage) interface{} {
 	o := zn.RunScript(src, nil)
 	res := map[string]interface{}{"obs": o.Obs, "errkind": o.ErrKind, "code": o.Code, "src": src, "parts": parts, "text": o.Text}
 	if o.Obs == "error" {
-		chain, _ := parseChain(o.Text)
+		chain, _, _ := parseChain(o.Text)
 		if len(chain) > 0 {
 			res["line"] = chain[0]
 		}
